@@ -541,9 +541,9 @@ func (d *drv) reopenProj(w *wallet, n int) (map[string]interface{}, string) {
 }
 
 func (d *drv) reopenProjOnce(w *wallet, n int) (map[string]interface{}, string) {
-	// with opt walletopen every third projection opens the copy the way the node does at start-up (wallet.NewPoCWallet on
+	// with opt walletopen every fourth projection opens the copy the way the node does at start-up (wallet.NewPoCWallet on
 	// <MinerDir>/keystore, once per candidate passphrase), the others share one store opened with small buffers
-	viaWallet := d.walletOpen && n%3 == 0
+	viaWallet := d.walletOpen && n%4 == 0
 	top := filepath.Join(d.dir, fmt.Sprintf("%s-copy%d", w.name, n))
 	cp := filepath.Join(top, "keystore")
 	defer os.RemoveAll(top)
